@@ -8,7 +8,7 @@ import random
 from hypothesis import strategies as st
 from natsort import natsorted
 
-from lib import gen_db, gen_sol, gen_evid, simreads
+from lib import gen_db, gen_sol, gen_evid, simreads, refmodels
 from lib.runner import Result, V, scratch, REPO
 
 ID = "C13"
@@ -100,6 +100,7 @@ def stage_results(gene, sel, struct, depth, seed, noisy, extra_keys, common, gap
     out["major"] = sorted((tuple(sorted(a.major for a in s.solution.elements())), tuple(sorted(rkey(gene, m) for m in s.added)), round(s.score, 4)) for s in majors)
     keyed = sorted(majors, key=lambda s: (tuple(sorted(a.major for a in s.solution.elements())), tuple(sorted(rkey(gene, m) for m in s.added))))
     minors = estimate_minor(gene, covo, keyed[:2], "cbc", novel=bool(novel)) if majors else []
+    out["_ctx"] = (gene, prof, raw, keyed[:2], cn, bool(novel))
     if novel:
         out["novel-effects"] = [(gene.get_refseq((gp, gop)), gene.get_functional((gp, gop))) for gp, gop in novel]
     out["minor"] = sorted((tuple(sorted((a.major, a.minor, tuple(sorted(rkey(gene, m) for m in a.added)), tuple(sorted(rkey(gene, m) for m in a.missing)))
@@ -114,6 +115,36 @@ def carried_multiset(gene, s):
         for m in (set(al.func_muts) | set(al.minors[a.minor].neutral_muts) | set(a.added)) - set(a.missing):
             c[rkey(gene, m)] += 1
     return tuple(sorted(c.items()))
+
+
+def _optimal(ctx, reported_best):
+    """True / False: the best reported refinement score is / is not the exhaustive optimum for this build's table; None: not decidable
+    (novel mode or enumeration too large)."""
+    gene, prof, raw, majors, cn, novel = ctx
+    if novel or not majors:
+        return None
+    pooled = set()
+    for mj in majors:
+        for a in mj.solution:
+            pooled |= set(gene.alleles[a.major].func_muts)
+            for mi in gene.alleles[a.major].minors.values():
+                pooled |= set(mi.neutral_muts)
+        pooled |= set(mj.added)
+    pooled |= set(gene.random_mutations)
+    lo = min(m.score for m in majors)
+    best = None
+    try:
+        for mj in majors:
+            mc = collections.Counter({a.major: n for a, n in mj.solution.items()})
+            b, _, _ = refmodels.rmin(gene, prof, raw, mc, cn, extra_mutations=[tuple(m) for m in pooled], limit=100000)
+            if b is not None:
+                v = b[0] + mj.score - lo
+                best = v if best is None else min(best, v)
+    except OverflowError:
+        return None
+    if best is None:
+        return None
+    return abs(reported_best - best) <= 2e-3
 
 
 def compare(a, b, viol, where):
@@ -138,9 +169,23 @@ def compare(a, b, viol, where):
         majors_a = sorted(tuple(sorted(al[0] for al in x[0])) for x in na)
         majors_b = sorted(tuple(sorted(al[0] for al in x[0])) for x in nb)
         redistribution = same_score and majors_a == majors_b and sorted(x[2] for x in na) == sorted(x[2] for x in nb)
-        b = "KF-TIE:equal-score-redistribution-of-variants-among-copies" if redistribution else \
-            ("tie_break_divergence:minor-alleles-differ-at-equal-score" if same_score else "minor-solutions-differ-between-builds")
-        viol.append(V(b, hg19=str([x[:2] for x in na])[:400], hg38=str([x[:2] for x in nb])[:400], where=where))
+        if redistribution:
+            bk = "KF-TIE:equal-score-redistribution-of-variants-among-copies"
+        elif same_score and majors_a == majors_b:
+            # recorded finding KF-TIE2: two refinements of the same major call with DIFFERENT carried variants tie exactly (e.g. one
+            # copy's worth of an insertion missing: keep it on both copies, error 1, or switch one copy to a minor without it and add
+            # the other variant back, penalty 1); each build reports the one its solver run meets first.  Matched only if the
+            # exhaustive enumerator confirms, for BOTH builds, that the reported score is the optimum of that build's table (or the
+            # case cannot be enumerated); a reported refinement that is not optimal is a plain violation
+            oa = _optimal(a["_ctx"], min(x[1] for x in na)) if "_ctx" in a else None
+            ob = _optimal(b["_ctx"], min(x[1] for x in nb)) if "_ctx" in b else None
+            if oa is False or ob is False:
+                bk = "minor-solutions-differ-between-builds:reported-refinement-not-optimal"
+            else:
+                bk = "KF-TIE2:equal-score-optima-with-different-carried-variants" + ("" if oa and ob else ":not-enumerated")
+        else:
+            bk = "tie_break_divergence:minor-alleles-differ-at-equal-score" if same_score else "minor-solutions-differ-between-builds"
+        viol.append(V(bk, hg19=str([x[:2] for x in na])[:400], hg38=str([x[:2] for x in nb])[:400], where=where))
     elif any(abs(x[1] - y[1]) > 2e-3 for x, y in zip(na, nb)):
         viol.append(V("minor-scores-differ-between-builds", hg19=[x[1] for x in na], hg38=[x[1] for x in nb], where=where))
 
